@@ -74,7 +74,7 @@ def _accepts_kw(cls):
         return False
 
 
-def observe_login(enc, sid, key_form, seed, fail_first=False):
+def observe_login(enc, sid, key_form, seed, fail_first=False, conn=None):
     """The string the library hands to AuthenticationToken.join when a server asks for encryption: LoginReactor.react on
     a real Connection (in-memory socket), the key in one of the encodings the client accepts, the secret recovered from
     the wire with the private key."""
@@ -118,7 +118,11 @@ def observe_login(enc, sid, key_form, seed, fail_first=False):
         def close(self):
             pass
     w = Wire()
-    conn = Connection('h', 25565, auth_token=Tok(), allowed_versions={757})
+    if conn is None:
+        conn = Connection('h', 25565, auth_token=Tok(), allowed_versions={757})
+    else:
+        conn.auth_token = Tok()     # (a Connection handed in has logged in before: this is its next login, to whatever
+    #                                  server answers now - another key, another id)
     conn.socket, conn.file_object = w, w
     # the request as it comes off the wire: the peer's own encoding of (server id, key, token), decoded by the library
     from minecraft.networking.packets import PacketBuffer
@@ -217,7 +221,14 @@ def run(chk):
     for j in range(18 if quick else 72):
         sid = ['', 'abc123', 'caf\u00e9-\u30b5\u30fc\u30d0\u30fc', '\ufeffsrv-1', '\ufeff', 'a\ufeffb\n'][j % 6] if j < 18 else ''.join(
             chr(rng.choice([rng.randint(33, 126), rng.randint(0xA0, 0x7FF), rng.randint(0x800, 0xD7FF)])) for _ in range(rng.randint(0, 12)))
-        o, res = observe_login(enc, sid, ('spki', 'pkcs1', 'nonull')[(j // 6) % 3], chk.seed * 13 + j, fail_first=(j % 4 == 1))
+        if j % 2 == 0:
+            if j % 12 == 0:
+                from minecraft.networking.connection import Connection as _Conn
+                shared_conn = _Conn('h', 25565, username='u', allowed_versions={757})
+            use = shared_conn       # six consecutive logins through one Connection object, the key's encoding changing
+        else:
+            use = None
+        o, res = observe_login(enc, sid, ('spki', 'pkcs1', 'nonull')[(j // 2) % 3], chk.seed * 13 + j, fail_first=(j % 4 == 1), conn=use)
         chk.case(('login', j))
         obs.append(o)
     tf = os.path.join(chk.work, 'hash_obs.json')
